@@ -214,7 +214,8 @@ CHECKS = {
   "title": "Declaration order is free",
   "harnesses": [doc("VerifH_OrderTopLevel", {"K": 3, "MENU": 0}, {"K": 4, "MENU": 0}), doc("VerifH_OrderTopLevel", {"K": 3, "MENU": 1}, {"K": 4, "MENU": 1}),
                 doc("VerifH_AllOfOrder", {}, {}),
-                doc("VerifH_OrderTopLevel", {"K": 3, "MENU": 2}, {"K": 4, "MENU": 2}, full_schema_lib=True)],
+                doc("VerifH_OrderTopLevel", {"K": 3, "MENU": 2}, {"K": 4, "MENU": 2}, full_schema_lib=True),
+                doc("VerifH_OrderTopLevel", {"K": 3, "MENU": 3}, {"K": 4, "MENU": 3})],
   "assumptions": DOC_ASSUME + ["permutation = swap of two adjacent top-level blocks (generates all permutations), kept only when every line keeps its parent under the C06 reference resolver; the JSIGHT header stays first"],
   "not_decided": DOC_NOT + ["order effects inside the schema library (lazy loading of rules / types): the library is not encoded", "declaration-order effects through more than three types"],
  },
